@@ -179,6 +179,9 @@ def move_agent(
         action,
     )
 
+    if not state.grid.area.contains(next_position):
+        return
+
     try:
         obj = state.grid[next_position]
     except IndexError:
